@@ -860,6 +860,11 @@ Q(id='C01.kalign_run.protocol', props=['C01', 'C04', 'C09', 'C16', 'C03'], cls='
   unwind=4, timeout=600, replayable=False, funcs=['kalign_run'],
   trusted=[TRUST_MSG, 'esl_stopwatch_*: no-op stubs', 'all twelve callees replaced at the call sites by the step contracts of contracts/aln_wrap.contracts.h; each has its own queries'],
   assumptions=['status / kind of sequence / thread count / type / penalties (full float domain) / failing step symbolic; OpenMP call omp_set_num_threads is outside the non-OpenMP verification build (static fact omp_set_num_threads_each_call)'])
+Q(id='C16.kalign_api.protocol', props=['C16', 'C01', 'C09'], cls='P', harness='c16_kalign_api.c', entry='h_c16_kalign_api',
+  mode='dfcc', replace=['kalign_run', 'kalign_msa_to_arr', 'kalign_free_msa'],
+  unwind=4, timeout=600, replayable=False, funcs=['kalign'],
+  trusted=[TRUST_MSG, 'kalign_run, kalign_msa_to_arr, kalign_free_msa replaced at the call sites by step / argument contracts, kalign_arr_to_msa by a stub with the same contract (harness/c16_kalign_api.c); each has its own queries'],
+  assumptions=['argument values, thread count, type, penalties (full float domain) and the failing step symbolic'])
 Q(id='C04.kalign_read_input.protocol', props=['C04', 'C05'], cls='P', harness='c04_read_protocol.c', entry='h_c04_read_protocol',
   mode='dfcc', replace=['read_file_stdin', 'detect_alignment_format', 'read_fasta', 'read_msf', 'read_clu', 'detect_alphabet', 'detect_aligned', 'set_sip_nsip', 'free_in_buffer', 'merge_msa', 'kalign_free_msa'],
   unwind=4, timeout=600, replayable=False, funcs=['kalign_read_input', 'check_for_sequences'],
